@@ -62,3 +62,13 @@ open Cherab.Props.C17
 #print axioms grid_total_history
 #print axioms grid_trace_const
 #print axioms grid_ctor_total
+-- proof-deepening pass
+#print axioms centroid_r_nonneg
+#print axioms volume_nonneg
+#print axioms pick_positive_area
+#print axioms every_positive_triangle_reachable
+#print axioms sample_point_onto
+#print axioms drawOne_total
+#print axioms drawN_never_leaves_table
+#print axioms grid_rejected_op_unchanged
+#print axioms grid_active_exactly_one
